@@ -114,3 +114,77 @@ def all_regions(r):
     for a in r.assemblies:
         for reg in a.region:
             yield a, reg
+
+
+# ----------------------------------------------------------------------
+# the repository's own example inputs as workloads
+
+REPO_INPUTS = [
+    'input_custom_mat.txt', 'input_dd_ebal.txt', 'input_dd_stagnant_byp.txt',
+    'input_duct_heating.txt', 'input_duct_heating_adiabatic.txt',
+    'input_general_pinmodel.txt', 'input_multiple_tp.txt',
+    'input_one_axial_reg.txt', 'input_orificing.txt',
+    'input_power_verif_refl.txt', 'input_power_verif_vac.txt',
+    'input_req_axial_plane.txt', 'input_single_asm.txt',
+    'input_single_asm_lf.txt', 'input_single_asm_pin_table.txt',
+    'input_single_spacer.txt', 'input_single_tp.txt',
+    'input_single_tp_old_fcgap.txt']
+
+
+def repo_inputs():
+    """Example inputs of the repository (tests/test_inputs) whose data files
+    are intact in this checkout; the list is fixed, files that have gone
+    missing are skipped by the caller through Rejected."""
+    base = os.path.join(env.SRC, 'tests', 'test_inputs')
+    return [n for n in REPO_INPUTS if os.path.exists(os.path.join(base, n))]
+
+
+def build_repo_input(name, workdir, max_steps=None, **kw):
+    """Copy tests/test_inputs next to a link to tests/test_data (the inputs
+    use ../test_data paths) and build the model with the real reader."""
+    src = os.path.join(env.SRC, 'tests')
+    ti = os.path.join(workdir, 'test_inputs')
+    os.makedirs(ti, exist_ok=True)
+    for f in os.listdir(os.path.join(src, 'test_inputs')):
+        p = os.path.join(src, 'test_inputs', f)
+        if os.path.isfile(p):
+            shutil.copy(p, os.path.join(ti, f))
+    # the power pre-processor writes next to the data: work on a copy
+    for ds in ('single_asm_refl', 'single_asm_vac'):
+        p = os.path.join(src, 'test_data', ds)
+        if os.path.isdir(p):
+            shutil.copytree(p, os.path.join(workdir, 'test_data', ds),
+                            dirs_exist_ok=True)
+    td = os.path.join(src, 'test_data')
+    for f in os.listdir(td):
+        q = os.path.join(workdir, 'test_data', f)
+        if not os.path.exists(q):
+            os.makedirs(os.path.dirname(q), exist_ok=True)
+            os.symlink(os.path.join(td, f), q)
+    env.log_records()
+    cwd = os.getcwd()
+    try:
+        os.chdir(ti)
+        try:
+            with quiet():
+                inp = dassh.DASSH_Input(os.path.join(ti, name))
+        except SystemExit:
+            raise Rejected('input', env.log_records())
+        except Exception as e:
+            raise Rejected('input', [('HARNESS', 'data files not usable: '
+                                      '%s: %s' % (type(e).__name__, e))])
+        kw.setdefault('calc_power', True)
+        try:
+            with quiet():
+                r = dassh.Reactor(inp, **kw)
+        except SystemExit:
+            raise Rejected('setup', env.log_records())
+        except (FileNotFoundError, OSError) as e:
+            raise Rejected('setup', [('HARNESS', 'data files not usable: '
+                                      '%s' % e)])
+    finally:
+        os.chdir(cwd)
+    if max_steps is not None and len(r.z) > max_steps:
+        raise TooManySteps('too_many_steps', [('HARNESS', '%d planes'
+                                               % len(r.z))])
+    return inp, r
